@@ -7,10 +7,11 @@ package reddit
 // document / body position.
 //@ func IsPostAPI
 //@   opaque
-//@   modifies models.URL::*
+//@   modifies models.URL::*!Hops!Redirects
 //@ func ExtractAPIPostPermalinks
 //@   opaque
-//@   modifies models.URL::*
+//@   modifies models.URL::*!Hops!Redirects
+//@   ensures [fresh-urls] freshslice(result0) && forall(j, 0, len(result0), result0[j] == nil || fresh(result0[j])) // assumed: the extractor builds a new list of new URL objects, it never hands back the page's own URL object
 //@ func IsRedditURL
 //@   opaque
-//@   modifies models.URL::*
+//@   modifies models.URL::*!Hops!Redirects
